@@ -33,7 +33,7 @@ CACHE = os.path.join(BUILD, "gen_cache")
 
 CONST_PREFIXES = ("ELFCLASS", "ELFDATA", "EI_", "ELFMAG", "EV_", "SHT_", "SHF_", "PT_", "PF_",
                   "DT_", "STB_", "STT_", "STV_", "SHN_", "STN_", "ET_", "NT_", "ELFOSABI_",
-                  "VER_", "ELFCOMPRESS_")
+                  "VER_", "ELFCOMPRESS_", "R_386_")
 STRUCTS = ["Elf32_Ehdr", "Elf64_Ehdr", "Elf32_Shdr", "Elf64_Shdr", "Elf32_Phdr", "Elf64_Phdr",
            "Elf32_Sym", "Elf64_Sym", "Elf32_Rel", "Elf64_Rel", "Elf32_Rela", "Elf64_Rela",
            "Elf32_Dyn", "Elf64_Dyn", "Elfxx_Verdef", "Elfxx_Verdaux", "Elfxx_Verneed",
